@@ -495,7 +495,7 @@ impl DebugInformation {
             let unit = self.unit_ensure(*unit_idx);
             for &line_idx in file_lines {
                 let line_row = unit.line(line_idx);
-                if !line_row.is_stmt() {
+                if !line_row.is_stmt() || line_row.end_sequence() {
                     continue;
                 }
                 let line = line_row.line;
